@@ -1,77 +1,46 @@
 import DaeVerif.C07.Model
 import DaeVerif.C07.Gen.Skeleton
 /-!
-# C07 — the controller skeleton is written against the step order of the source
+# C07 — the controller skeleton is written against the decisive order of the source
 
 `handle`, `dialSend` and `handleOpt` (Model.lean) are a hand-written skeleton of
 `HandleWithResponseWriter_` → `handleWithResponseWriter_` → `dialSend` (+ `backgroundRefresh`).
-`Gen/Skeleton.lean` is regenerated on every check run from the Go source by
-`/verif/translators/c07skel` (go/ast): the decision steps of those four functions in SOURCE ORDER.
-The lists below are the order the model was written against, with the model clause each step became;
-`Props.controller_steps_as_modelled` states that source and model agree step by step.  A re-ordered,
-removed or added step (cache consulted before the reject test, question check after response routing,
-another singleflight key, re-ask without `+1`, store under another key, …) breaks that theorem at build
-time — independently of whether a generated input shows a behavioural difference.
+`/verif/translators/c07skel` (go/ast) extracts from the Go source the DECISIVE ORDER FACTS of those four
+methods — which step comes before which, and which value (by parameter position / data flow, not by
+spelling) is passed where.  `Gen/Skeleton.lean` is a snapshot of its output for the tree the model was
+written against; `checks/c07.py` recomputes the facts for the tree under test on every run and compares.
+The list below is what the model relies on, with the model clause next to each fact;
+`Props.controller_steps_as_modelled` equates snapshot and model.
+
+Not facts (no alarm): renamed locals, `!(d < Max)` for `d >= Max`, logging, extra or dropped cache
+re-reads, helper extraction of non-decisive steps.  A changed fact (cache consulted before the reject test,
+question check after response routing, another singleflight key, re-ask without `+1` or at another
+upstream, store under another key, `>` for `>=`) is reported as a broken correspondence.
 -/
 namespace DaeVerif.C07
 
-/-- `HandleWithResponseWriter_` — `handle` / `handleOpt`:
-route first (`requestSelect`); reject ⇒ `removeFamily` + `.rejected`, before any cache is read;
-`cache.lookup` (a stale hit starts `backgroundRefresh`); miss ⇒ resolution under the singleflight key
-`responseCacheKey` (`dialSend … 0 u`), then the reply is read back from the cache or written directly;
-messages without question / with the response bit take the internal path. -/
-def modelled_HandleWithResponseWriter_ : List String := [
-  "route-request",
-  "if-routed-to-reject",
-  "remove-cache-family",
-  "answer-empty",
-  "cache-lookup",
-  "background-refresh",
-  "reply-from-cache",
-  "singleflight(responseCacheKey)",
-  "resolve",
-  "cache-lookup",
-  "reply-from-cache",
-  "reply",
-  "reply-packet",
-  "internal-path"]
-
-/-- `handleWithResponseWriter_` (internal path and the body of the singleflight resolution): the same
-order again, ending in `dialSend` at depth 0 with the routed upstream and the request's cache key. -/
-def modelled_handleWithResponseWriter_ : List String := [
-  "route-request",
-  "if-routed-to-reject",
-  "remove-cache-family",
-  "answer-empty",
-  "cache-lookup",
-  "background-refresh",
-  "reply-from-cache",
-  "dialSend(depth=0,upstream=upstream,key=responseCacheKey)"]
-
-/-- `dialSend` — `dialSend`: depth guard `>=` first; forward; the question check BEFORE response routing;
-`route-response`; accept / reject (empties `respMsg.Answer` only) / re-ask one level deeper at
-`nextUpstream`; every store is under `responseCacheKey` (the ORIGINAL request's key). -/
-def modelled_dialSend : List String := [
-  "depth-guard(invokingDepth>=MaxDnsLookupDepth)",
-  "forward",
-  "question-check",
-  "route-response",
-  "case-accept",
-  "case-reject",
-  "empty-answer-section",
-  "reask(invokingDepth+1,nextUpstream)",
-  "case-accept",
-  "case-reject",
-  "store(responseCacheKey)",
-  "reply",
-  "reply-packet",
-  "store(responseCacheKey)",
-  "store(responseCacheKey)"]
-
-/-- `backgroundRefresh` — the stale branch of `handleOpt`: nothing for a rejected route, else `dialSend`
-at depth 0 with the upstream the request routing selected, storing under the stale entry's key. -/
-def modelled_backgroundRefresh : List String := [
-  "if-routed-to-reject",
-  "dialSend(depth=0,upstream=upstream,key=cacheKey)"]
+/-- the facts, in the translator's order:
+* handlers: `requestSelect` first; `.reject ⇒ .rejected` before `cache.lookup` (both in `handle`/`handleOpt`);
+* the coalesced resolution runs under the key that includes the scope (`CacheKey.scope`; `pair` ops);
+* `dialSend _ _ _ 0 u` after a miss with the routed upstream `u`, stored under `key` of the request;
+* `dialSend`: `depth ≥ cfg.maxDepth` guard first, then `ans depth up`, `answersQuestion`, `responseSelect`;
+  `.reject ⇒ { r with recs := [] }`; `.next k ⇒ dialSend (depth + 1) (.up k)`; `cache.store key` only in `handle`
+  after `dialSend` returned, with the request's `key`;
+* `handleOpt`: stale hit ⇒ `dialSend … 0 u`, result stored under the same `key`; reject never refreshes. -/
+def modelledFacts : List String := [
+  "HandleWithResponseWriter_: request routing, then the reject test, then the first cache lookup",
+  "HandleWithResponseWriter_: a rejected route is answered empty before any cache lookup",
+  "handleWithResponseWriter_: request routing, then the reject test, then the first cache lookup",
+  "handleWithResponseWriter_: a rejected route is answered empty before any cache lookup",
+  "HandleWithResponseWriter_: resolution is coalesced under the response cache key (scope included)",
+  "HandleWithResponseWriter_: cache lookup before the coalesced resolution",
+  "handleWithResponseWriter_: after a cache miss, dialSend at depth 0 with the routed upstream under the request's response cache key",
+  "dialSend: refuses when the depth has reached MaxDnsLookupDepth (>=)",
+  "dialSend: depth guard, forward, question check, response routing — in this order",
+  "dialSend: a response routed to reject loses its answer section",
+  "dialSend: a re-ask goes one level deeper, to the upstream the response routing selected, under the same cache key",
+  "dialSend: every store is under the cache key of the original request",
+  "dialSend: nothing is stored before the response is routed",
+  "backgroundRefresh: nothing for a rejected route; else dialSend at depth 0 with the upstream routed for the stale entry, under that entry's key"]
 
 end DaeVerif.C07
